@@ -35,9 +35,9 @@ func init() {
 		},
 		N: func(t string) int {
 			if t == "thorough" {
-				return 204 * 800
+				return 204 * 4000
 			}
-			return 204 * 24
+			return 204 * 100
 		},
 		Batch:      2040,
 		Init:       refnas.SelfTest,
